@@ -113,6 +113,7 @@ Proof.
   - intros H; inversion H; subst; auto.
   - destruct (backward A (h_g A s) (h_w A s) (h_mode A s) root seed (h_b A s)) as [[b' l]|]; [|discriminate].
     intros H; inversion H; subst; auto.
+  - intros H; inversion H; subst; auto.
   - destruct (v <? length (h_g A s)); [|discriminate]. intros H; inversion H; subst; auto.
   - destruct (in_range (h_g A s) ps); [|discriminate]. intros H; inversion H; subst; auto.
   - destruct (in_range (h_g A s) ps); [|discriminate]. intros H; inversion H; subst; auto.
@@ -162,6 +163,18 @@ Proof.
     + assert (Hl : is_leaf (getn (h_g A s) v) = true) by (unfold is_leaf; rewrite Hf; apply orb_true_r).
       unfold releases. rewrite Hl. cbn [negb andb]. rewrite andb_false_r. cbn [andb].
       unfold leaf_part. rewrite Hl. unfold oget. reflexivity.
+  - (* BackwardFails *)
+    inversion Hstep; subst; clear Hstep. cbn [h_b].
+    rewrite (backward_fails_expected A (h_g A s) root (h_b A s) Hwf Hdfs). unfold fails_expected.
+    fold (touches (h_g A s) root v).
+    destruct Hleaf as [Hge|[Hr Hf]].
+    + assert (Ht : touches (h_g A s) root v = false).
+      { unfold touches. rewrite (getn_overflow _ _ Hge). cbn. apply andb_false_r. }
+      rewrite Ht. reflexivity.
+    + assert (Hl : is_leaf (getn (h_g A s) v) = true) by (unfold is_leaf; rewrite Hf; apply orb_true_r).
+      rewrite Hl. cbn [negb]. rewrite orb_false_r.
+      destruct (touches (h_g A s) root v); cbn [andb]; [|reflexivity].
+      destruct (h_b A s v); reflexivity.
   - destruct (v0 <? length (h_g A s)); [|discriminate]. inversion Hstep; subst. cbn [h_b].
     unfold zero_buf, upd. rewrite (Nat.eqb_sym v0 v). reflexivity.
   - destruct (in_range (h_g A s) ps); [|discriminate]. inversion Hstep; subst. cbn [h_b]. apply fold_zero_req.
@@ -260,22 +273,32 @@ Proof.
   destruct e; try reflexivity. rewrite H1. reflexivity.
 Qed.
 
+Lemma oget_some (a : option V) : oget A (Some (oget A a)) = oget A a.
+Proof. reflexivity. Qed.
+
 Theorem leaf_spec_since_reset : forall h g w v a,
   no_reset A g h v = true ->
   leaf_spec A g w h v a =
-  if reached A g h v then Some (vadd A (oget A a) (vsum A (contribs A g w h v))) else a.
+  if reached A g h v then Some (vadd A (oget A a) (vsum A (contribs A g w h v)))
+  else if touched A g h v then Some (oget A a) else a.
 Proof.
   induction h as [|e h IH]; intros g w v a Hn; [reflexivity|].
   cbn [no_reset] in Hn. apply andb_true_iff in Hn. destruct Hn as [Hn1 Hn2]. apply negb_true_iff in Hn1.
-  cbn [leaf_spec reached contribs]. rewrite (IH _ _ _ _ Hn2).
+  cbn [leaf_spec reached touched contribs]. rewrite (IH _ _ _ _ Hn2).
   destruct e; cbn [acc_step resets] in *; cbn [orb app];
     try reflexivity; try (rewrite Hn1; reflexivity).
-  destruct (reachb g root v && req (getn g v)); cbn [orb app]; [|reflexivity].
-  destruct (reached A (evolve_g A g (Backward root seed)) h v) eqn:Er.
-  - cbn [oget Sweep.vsum fold_right]. rewrite (vadd_assoc A Aok). reflexivity.
-  - rewrite (contribs_unreached _ _ _ _ Er). cbn [Sweep.vsum fold_right]. rewrite (vadd_0_r A Aok). reflexivity.
+  - (* Backward *)
+    destruct (reachb g root v && req (getn g v)); cbn [orb app]; [|reflexivity].
+    destruct (reached A (evolve_g A g (Backward root seed)) h v) eqn:Er.
+    + cbn [oget Sweep.vsum fold_right]. rewrite (vadd_assoc A Aok). reflexivity.
+    + rewrite (contribs_unreached _ _ _ _ Er). cbn [Sweep.vsum fold_right]. rewrite (vadd_0_r A Aok).
+      destruct (touched A (evolve_g A g (Backward root seed)) h v); reflexivity.
+  - (* BackwardFails *)
+    destruct (touches g root v); cbn [orb]; [|reflexivity].
+    rewrite oget_some.
+    destruct (reached A (evolve_g A g (BackwardFails root)) h v); [reflexivity|].
+    destruct (touched A (evolve_g A g (BackwardFails root)) h v); reflexivity.
 Qed.
-
 
 (* graph and weights after a history *)
 Fixpoint evolve_all (g : arena) (w : weights A) (h : list event) : arena * weights A :=
@@ -289,7 +312,7 @@ Lemma leaf_spec_app : forall h1 h2 g w v a,
   leaf_spec A (fst (evolve_all g w h1)) (snd (evolve_all g w h1)) h2 v (leaf_spec A g w h1 v a).
 Proof. induction h1 as [|e h1 IH]; intros; cbn [app leaf_spec evolve_all]; [reflexivity|apply IH]. Qed.
 
-(* Σ over the backward calls since the last reset *)
+(* Σ over the backward calls since the last reset (failed calls in between contribute nothing) *)
 Theorem history_sum_since_reset h1 e h2 s s' v :
   valid_state s -> builds_ok A (length (h_g A s)) (h1 ++ e :: h2) ->
   run A s (h1 ++ e :: h2) = Some s' ->
@@ -305,21 +328,36 @@ Proof.
   { destruct e; cbn [resets] in Hres; cbn [acc_step]; try discriminate; rewrite Hres; reflexivity. }
   rewrite Ha. destruct (reached A (evolve_g A g1 e) h2 v) eqn:Er.
   - cbn [oget]. rewrite (vadd_0_l A Aok). reflexivity.
-  - rewrite (contribs_unreached _ _ _ _ Er). reflexivity.
+  - rewrite (contribs_unreached _ _ _ _ Er). cbn [Sweep.vsum fold_right oget].
+    destruct (touched A (evolve_g A g1 e) h2 v); reflexivity.
 Qed.
 
-(* a leaf that was never reset: what it held at the start (possibly nothing) plus every contribution; still
-   absent (None) iff it was absent and no backward call reached it *)
+(* a leaf that was never reset: what it held at the start (possibly nothing) plus every contribution; still absent (None) iff
+   it was absent and no call (successful or failed) reached it *)
 Theorem history_sum_never_reset h s s' v :
   valid_state s -> builds_ok A (length (h_g A s)) h -> run A s h = Some s' ->
   no_reset A (h_g A s) h v = true -> leafish (h_g A s') v ->
   h_b A s' v = if reached A (h_g A s) h v
                then Some (vadd A (oget A (h_b A s v)) (vsum A (contribs A (h_g A s) (h_w A s) h v)))
-               else h_b A s v.
+               else if touched A (h_g A s) h v then Some (oget A (h_b A s v)) else h_b A s v.
 Proof.
   intros Hv Hb Hrun Hno Hleaf.
   destruct (history_leaf_spec _ s s' Hv Hb Hrun) as [_ Hspec].
   rewrite (Hspec v Hleaf). apply leaf_spec_since_reset. exact Hno.
+Qed.
+
+(* a failed call changes no leaf gradient value: at most an absent buffer becomes a zero buffer *)
+Theorem failed_call_keeps_values s r s' v :
+  valid_state s -> step A s (BackwardFails r) = Some s' -> leafish (h_g A s) v ->
+  oget A (h_b A s' v) = oget A (h_b A s v) /\ (forall x, h_b A s v = Some x -> h_b A s' v = Some x) /\
+  (h_b A s' v = h_b A s v \/ (h_b A s v = None /\ h_b A s' v = Some (vzero A) /\ touches (h_g A s) r v = true)).
+Proof.
+  intros Hv Hstep Hleaf. rewrite (step_leaf s _ s' v Hv Hstep Hleaf). cbn [acc_step].
+  destruct (touches (h_g A s) r v) eqn:Ht.
+  - destruct (h_b A s v) as [x|] eqn:Hb; cbn [oget].
+    + split; [reflexivity|]. split; [intros y Hy; exact Hy|left; reflexivity].
+    + split; [reflexivity|]. split; [intros y Hy; discriminate|right; auto].
+  - split; [reflexivity|]. split; [auto|left; reflexivity].
 Qed.
 
 End Hist.
